@@ -464,6 +464,42 @@ func run[K comparable](r *engine.Rec, c *cfg[K]) {
 		if why := coherent(cat); why != "" {
 			return viol("key index and order diverge after "+op.K, why+fmt.Sprintf("\nbefore %v after %v", m, got))
 		}
+		if why := seqx.Interference(func() (func() string, func(), bool) {
+			cc, _, out := build(path[0])
+			if out.Panicked {
+				return nil, nil, false
+			}
+			for _, p := range path[1:] {
+				apply(p, cc)
+			}
+			return func() string { return common.View(cc) }, func() { apply(op, cc) }, true
+		}, []func() func() string{
+			func() func() string {
+				b := C().Make()
+				b.SetValue(c.keys[0], "bystander")
+				b.SetValue(c.keys[1], "bystander")
+				return func() string { return common.View(b) }
+			},
+			func() func() string {
+				b := C().Make()
+				b.SetValue(c.keys[1], "p")
+				b.SetValue(c.keys[0], "q")
+				x := C().Extract(b, col.List[K](common.N()).MakeFromArray([]K{c.keys[0], c.keys[2]}))
+				y := C().Merge(b, x)
+				b.RemoveValue(c.keys[1])
+				return func() string { return common.View(b) + common.View(x) + common.View(y) }
+			},
+			func() func() string {
+				b := C().Make()
+				b.SetValue(c.keys[2], "r")
+				b.RemoveAll()
+				b.SetValue(c.keys[0], "s")
+				b.SortValues()
+				return func() string { return common.View(b) }
+			},
+		}); why != "" {
+			return viol("catalogs of one type are not independent of each other", why)
+		}
 		// API-level coherence
 		{
 			type AL = col.AssociationLike[K, string]
